@@ -2,7 +2,8 @@
 
 Domain : generated methods (blocks, Simulate / Simulate off, marks, counters, Base, output commands, waits, watches, timed
          Pause/Hold, Restart) x input trajectories (In1/In2/Temp/Tot) x schedules of user control commands and ticks; the
-         reports are built by the real EngineMessageBuilder after generated numbers of ticks (0-20): mostly
+         reports are built by the real EngineMessageBuilder after generated numbers of ticks (0-20; in 1 case of 8 one gap
+         of 220-650 ticks, so that a tag that changed once early in the gap lies behind > 1000 newer queue entries): mostly
          create_tag_updates_msg, sometimes create_tag_updates_snapshot_msg; the first message is the snapshot that
          EngineRunner posts when it enters steady state.
 Oracle : the harness keeps, per tag, the value the reports told so far.  At each report it reads the value of every engine
@@ -29,7 +30,8 @@ TECHNIQUE = ("Hypothesis-generated methods x input trajectories x control/report
              "messages compared with a shadow of the last reported value of every tag")
 RULE = ("Hypothesis draws a method (<=10 top-level nodes, depth<=3; thorough <=14, depth<=4, thresholds) rich in blocks, "
         "Simulate/Simulate off, marks, counters and output commands, an input trajectory and 8-30 phases (thorough 12-50) of "
-        "0-20 ticks each followed by a report (1 in 8 a snapshot), 1 phase in 8 preceded by a user control command. "
+        "0-20 ticks each followed by a report (1 in 8 a snapshot), 1 phase in 8 preceded by a user control command; 1 case in 8 "
+        "has one gap of 220-650 ticks among its first four phases (method still executing) between two incremental reports. "
         "Non-trivial = >=3 reports were taken with a method block active in at least one tick since the previous report. "
         "Distinct = distinct (method, trajectory, schedule).")
 ASSUMPTIONS = [
@@ -46,14 +48,18 @@ TIERS = {
 }
 
 CHUNK = 1000
+LONG_GAP_EVERY = 8     # 1 case in 8 has a gap of 220-650 ticks between two incremental reports
+LONG_GAP_MIN = 200
 GAPS = [0, 1, 1, 2, 3, 4, 5, 6, 8, 10, 13, 16, 20]
 INCS = [0.1] * 10 + [0.5, 1.0]
 
 
 def _strategy(deep: bool):
     if deep:
-        return R.cases(R.CFG_TAGS_DEEP, GAPS, INCS, phases=(12, 50), snapshot_every=8, traj_changes=12, user_every=8)
-    return R.cases(R.CFG_TAGS, GAPS, INCS, phases=(8, 30), snapshot_every=8, traj_changes=8, user_every=8)
+        return R.cases(R.CFG_TAGS_DEEP, GAPS, INCS, phases=(12, 50), snapshot_every=8, traj_changes=12, user_every=8,
+                       long_gap_every=LONG_GAP_EVERY)
+    return R.cases(R.CFG_TAGS, GAPS, INCS, phases=(8, 30), snapshot_every=8, traj_changes=8, user_every=8,
+                   long_gap_every=LONG_GAP_EVERY)
 
 
 def _same(a, b) -> bool:
@@ -70,7 +76,8 @@ def oracle(case, tr) -> tuple[list[Violation], dict]:
     info = {"reports": 0, "snapshots": 0, "empty_reports": 0, "reports_with_block": 0, "changed_tags": 0,
             "reverted_unreported": 0, "simflag_only_change": 0, "simflag_only_change_unreported": 0,
             "reported_unchanged": 0, "ticks": len(tr.ticks), "raised": sum(1 for t in tr.ticks if t.raised is not None),
-            "sim_changed": 0, "multi_change_between_reports": 0, "readonly_differs_from_get_value": 0, "reported_simflag_differs": 0}
+            "sim_changed": 0, "multi_change_between_reports": 0, "readonly_differs_from_get_value": 0, "reported_simflag_differs": 0, "last_change_200_ticks_before_report": 0,
+            "long_gap_reports": 0}
 
     def viol(sig, msg):
         if not any(v.sig == sig for v in out):
@@ -106,6 +113,8 @@ def oracle(case, tr) -> tuple[list[Violation], dict]:
                 info["empty_reports"] += 1
             if any(t.block not in (None, "") for t in span):
                 info["reports_with_block"] += 1
+            if len(span) >= LONG_GAP_MIN:
+                info["long_gap_reports"] += 1
         for name, cur in r.current.items():
             cv, cs = cur[3], cur[1]       # effective value (Tag.get_value()), see tagrep_h._observe
             if not _same(cur[0], cur[3]):
@@ -122,6 +131,16 @@ def oracle(case, tr) -> tuple[list[Violation], dict]:
                 changed = not _same(sv, cv)
                 if changed:
                     info["changed_tags"] += 1
+                    if len(span) >= LONG_GAP_MIN and r.kind != "snapshot":
+                        # ticks of this gap after the last change of the tag
+                        quiet = 0
+                        for t in reversed(span):
+                            if name in t.obs and _same(t.obs[name][3], cv):
+                                quiet += 1
+                            else:
+                                break
+                        if quiet >= LONG_GAP_MIN:
+                            info["last_change_200_ticks_before_report"] += 1
                     if cs or ss:
                         info["sim_changed"] += 1
                     if name not in rep:
@@ -165,7 +184,8 @@ def run_shard(col, cfg):
         nontrivial = info["reports_with_block"] >= 3
         classes = [k for k in ("empty_reports", "reverted_unreported", "simflag_only_change", "simflag_only_change_unreported",
                                "reported_unchanged", "raised", "sim_changed", "multi_change_between_reports",
-                               "readonly_differs_from_get_value", "reported_simflag_differs") if info[k]]
+                               "readonly_differs_from_get_value", "reported_simflag_differs", "long_gap_reports",
+                               "last_change_200_ticks_before_report") if info[k]]
         if info["snapshots"] > 1:
             classes.append("later-snapshot")
         if any(len(p["ticks"]) == 0 for p in case["phases"]):
